@@ -73,7 +73,16 @@ def mir_consts(crate):
         key = m.group(1).strip().split("::")[-1]
         seen.setdefault(key, set()).add(val)
         out[key] = (val, m.group(2))
-    return {k: v for k, v in out.items() if len(seen[k]) == 1}
+    res = {k: v for k, v in out.items() if len(seen[k]) == 1}
+    # the full paths as well (two select! expansions both define a `BRANCHES`)
+    for m in re.finditer(r"^const ([^\n=]+?): (bool|[iu](?:8|16|32|64|128|size)) = const (-?\d+|true|false)(?:_[iu]\w+)?;", txt, re.M):
+        v = m.group(3)
+        res[m.group(1).strip()] = ((1 if v == "true" else 0) if v in ("true", "false") else int(v), m.group(2))
+    for m in re.finditer(r"^const ([^\n=]+?): (bool|[iu](?:8|16|32|64|128|size)) = \{\n(.*?)^\}", txt, re.S | re.M):
+        mm = re.search(r"_0 = const (-?\d+)_[iu]\w+;|_0 = const (true|false);", m.group(3))
+        if mm:
+            res[m.group(1).strip()] = (int(mm.group(1)) if mm.group(1) is not None else (1 if mm.group(2) == "true" else 0), m.group(2))
+    return res
 
 
 def find_body(bods, pattern, nth=0, all_=False):
